@@ -33,7 +33,9 @@ assert rc == 0, out
 if REPO == '/repo':
     rc_chk, out_chk = sh(f'./run.sh {prop} quick', '/verif')
 else:
-    rc_chk, out_chk = sh(f'MAMBA_REPO={REPO} /verif/checker/bin/mambacheck {prop} quick', '/verif')
+    os.makedirs('/tmp/ev-keep/evidence/violations', exist_ok=True)
+    shutil.copy('/verif/known_findings.txt', '/tmp/ev-keep/known_findings.txt')
+    rc_chk, out_chk = sh(f'VERIF_DIR=/tmp/ev-keep MAMBACHECK_CTL=/verif/checker/testdata/ctl MAMBA_REPO={REPO} /verif/checker/bin/mambacheck {prop} quick', '/verif')
 sh('git checkout -q -- .', REPO)
 rc, st = sh('git status --short', REPO); assert st.strip() == '', st
 keys = re.findall(r'\[([A-Z-]+:[^\]]+)\]', out_chk)
